@@ -16,8 +16,14 @@ Signed(str) == LET b == StrBytes(str) IN
 Canon(p) == IF p.mag = <<>> THEN [neg |-> FALSE, mag |-> <<>>] ELSE p
 Init == l = 1
 TReset == IsEvent("reset")
+\* the macros are used with expressions that have side effects (`PARSENUM(&n, *argv++)`): the string, the base and the trailing
+\* flag are each evaluated exactly once, so the string parsed is the one the caller's cursor pointed at
+Once == Has("sevals") =>
+          /\ Ev.sevals = 1
+          /\ Ev.tevals = (IF Ev.form \in {"e4", "e6i", "e6u", "e6d"} THEN 1 ELSE 0)
+          /\ Ev.bevals = (IF Ev.form \in {"e4", "e6i", "e6u"} /\ Ev.type \notin {"float", "double"} THEN 1 ELSE 0)
 TPnInt ==
-  /\ IsEvent("pn") /\ Ev.type \in DOMAIN Types
+  /\ IsEvent("pn") /\ Ev.type \in DOMAIN Types /\ Once
   /\ LET t == Types[Ev.type]
          bounded == Ev.form \in {"4i", "4u", "e6i", "e6u"}
          lo == IF bounded THEN Canon(Signed(Ev.min)) ELSE TypeLo(t)
@@ -31,7 +37,7 @@ TPnInt ==
         ELSE Ev.rc # 0 /\ Ev.errno = x[1]                                             \* EINVAL / ERANGE, never wraparound
 Bound(str) == IF str \in {"inf", "-inf"} THEN str ELSE str
 TPnFloat ==
-  /\ IsEvent("pn") /\ Ev.type \in {"float", "double"}
+  /\ IsEvent("pn") /\ Ev.type \in {"float", "double"} /\ Once
   /\ LET s == BytesOf(Ev.s)
          r == PF!ScanF(s)
          trailing == Ev.form \in {"e4", "e6d"} /\ Ev.trailing
